@@ -11,6 +11,7 @@ pub mod chmux_data;
 pub mod chmux_life;
 pub mod chmux_misc;
 pub mod chmux_peer;
+pub mod robs;
 pub mod rwlock;
 
 pub type MuxResult = Result<(), ChMuxError<io::Error, io::Error>>;
